@@ -92,10 +92,23 @@ func init() {
 			}
 			helpFlagLevel := -1
 			if helpMode == 3 {
-				if !target.HasHelpOpt() {
+				// the help flag can be given at any level of the path where it is visible (also above a wrapper
+				// created with UnsetOptions): the help of the level reached is expected
+				var lv []int
+				n := t.Root
+				for i := 0; ; i++ {
+					if n.HasHelpOpt() {
+						lv = append(lv, i)
+					}
+					if i == len(pathToks) {
+						break
+					}
+					n = n.Children[pathToks[i]]
+				}
+				if len(lv) == 0 {
 					helpMode = 0
 				} else {
-					helpFlagLevel = r2.Intn(len(pathToks) + 1)
+					helpFlagLevel = lv[r2.Intn(len(lv))]
 				}
 			}
 			s := &Scenario{Prog: p}
